@@ -792,12 +792,20 @@ func listenHistories(r *run.R, now time.Time) {
 			done()
 			continue
 		}
-		time.Sleep(500 * time.Millisecond)
+		// the subject gets up to 10 s of real time after the control has rolled (load); a certificate manager
+		// that was closed never rolls, however long one waits
 		var stuck []string
-		for _, l := range subj.open {
-			if !rolled(l) {
-				stuck = append(stuck, l.Multiaddr().String())
+		for w := 0; w < 2000; w++ {
+			stuck = stuck[:0]
+			for _, l := range subj.open {
+				if !rolled(l) {
+					stuck = append(stuck, l.Multiaddr().String())
+				}
 			}
+			if len(stuck) == 0 {
+				break
+			}
+			time.Sleep(5 * time.Millisecond)
 		}
 		r.Count("listen_histories_with_failed_listens_checked", 1)
 		r.Nontrivial(caseID)
